@@ -87,14 +87,27 @@ func (e echoSchema) Exec(ctx context.Context) graphql.ResponseHandler {
 	opCtx := graphql.GetOperationContext(ctx)
 	switch opCtx.Operation.Operation {
 	case ast.Query:
-		return graphql.OneShot(&graphql.Response{Data: e.execObj(ctx, opCtx, "Query", opCtx.Operation.SelectionSet, 0, nil)})
+		return e.lazy(opCtx, "Query")
 	case ast.Mutation:
-		return graphql.OneShot(&graphql.Response{Data: e.execObj(ctx, opCtx, "Mutation", opCtx.Operation.SelectionSet, 0, nil)})
+		return e.lazy(opCtx, "Mutation")
 	default:
 		if opCtx.Headers.Get(wsMarkHeader) == "" {
 			return graphql.OneShot(graphql.ErrorResponse(ctx, "subscriptions are not served over this transport"))
 		}
 		return tickStream(ctx, opCtx)
+	}
+}
+
+// lazy: the operation is executed when the transport asks for the response (as the generated Exec does), under the
+// response context of that call - so the data comes with the errors its resolvers reported
+func (e echoSchema) lazy(opCtx *graphql.OperationContext, root string) graphql.ResponseHandler {
+	done := false
+	return func(ctx context.Context) *graphql.Response {
+		if done {
+			return nil
+		}
+		done = true
+		return &graphql.Response{Data: e.execObj(ctx, opCtx, root, opCtx.Operation.SelectionSet, 0, nil)}
 	}
 }
 
